@@ -138,8 +138,31 @@ class M:
 
     def ever_written(self):
         if self.k in ("TSL", "TSB"):
-            return any(c.ever_written() for c in self.value)
+            # latched: a fixed-shape parent stays valid although every child has been invalidated since; only its OWN (or an
+            # ancestor's) invalidation ends that
+            if not getattr(self, "ever_flag", False) and any(c.ever_written() for c in self.value):
+                self.ever_flag = True
+            return getattr(self, "ever_flag", False)
         return self.ever
+
+    def invalidate_rec(self):
+        """explicit invalidation of this endpoint: it and everything below it become invalid (lmt = never)"""
+        if self.k in ("TSL", "TSB"):
+            was = self.ever_written()
+            self.ever_flag = False
+            for c in self.value:
+                c.invalidate_rec()
+            if was:
+                self.invalidated_now = True
+            return
+        if self.k == "TSD":
+            for c in self.value.values():
+                c.invalidate_rec()
+        if self.valid or self.ever:
+            self.invalidated_now = True
+        self.valid = False
+        self.ever = False
+        self.lmt = -1
 
     def mark(self, t):
         self.ever = True
@@ -152,7 +175,7 @@ class M:
         """statement validity (a tick window is valid only from its minimum count). A fixed-shape parent is valid from
         its first write (through any child); only an explicit invalidation of the parent itself would end that."""
         if self.k in ("TSL", "TSB"):
-            return any(c.ever_written() for c in self.value)
+            return self.ever_written()
         if self.k == "TSW":
             return self.valid and self.count >= self.s[3]
         return self.valid
@@ -202,6 +225,9 @@ class M:
 
     # --- writes (t = cycle time); return True when the op was effective
     def apply(self, op, t):
+        if op.get("k") == "inval" and self.k in ("TSL", "TSB"):
+            self.invalidate_rec()
+            return False
         k = op["k"]
         if k == "set":
             self.value = op["v"]
@@ -298,6 +324,7 @@ class M:
             return eff
         if k == "i":
             eff = self.value[op["i"]].apply(op["op"], t)
+            self.ever_written()     # keep the validity latch of this (fixed-shape) parent current
             return eff
         if k == "setd":
             # whole-dictionary write: keys missing from the new contents are removed, the listed ones are written
@@ -508,6 +535,12 @@ def gen_op(draw, m: M, t, opts):
         # nested container that was already stamped in the cycle: "fixed TSData child reported a duplicate modification"). The degenerate value that populates nothing - at the
         # top or in a nested bundle field - must leave every flag untouched.
         op = {"k": "setv", "v": _partial(draw, m.s), "move": draw(st.booleans())}
+        m.apply(op, t)
+        return op
+    if k in ("TSL", "TSB") and opts.get("inval") and opts.get("inval_composite") and m.is_valid() and (k == "TSB" or m.s[2] > 0) and set(schema_kinds(m.s)) <= {"TS", "TSB", "TSL"} and draw(st.integers(0, 11)) == 0:
+        # explicit invalidation of a fixed-shape COLLECTION endpoint: it and everything below it become invalid (only over
+        # scalar leaves: what the elements of a set / dictionary below an invalidated parent read is not stated anywhere)
+        op = {"k": "inval"}
         m.apply(op, t)
         return op
     if k in ("TSL", "TSB"):
